@@ -108,6 +108,7 @@ type Engine struct {
 	watchHits    int
 	sleepBudget  int
 	declined     bool
+	precise      bool
 	hb           *hbState
 	hbCache      map[*ssa.Function]bool
 	spawnRan     map[int]bool
@@ -487,6 +488,7 @@ func (e *Engine) resetPathState() {
 	e.watched = nil
 	e.watchHits = 0
 	e.sleepBudget = -1
+	e.precise = false
 	e.hbReset()
 	e.spawnRan = map[int]bool{}
 	e.inLeftover = false
